@@ -695,13 +695,13 @@ def solve_all(obligations, budget=10, workers=16, tmpdir=None, portfolio=None):
     # takes a second can miss a 10 s limit; a verdict must not depend on how busy the cores are
     late = [ob for ob in todo if ob.status == "undecided" and ob.kind not in ("canary", "cover", "abort")]  # (a cover query asks for a model: "unknown" there is not a matter of time)
     st3 = {"solve_wall_s": 0, "queries": 0}
-    if 0 < len(late) <= 12:
+    if 0 < len(late) <= 3:
         for ob in late:
             ob.extra["phase2_runs"] = ob.extra.get("solver_runs")
             ob.status, ob.reason = None, None
         st3 = _solve_phase(late, min(budget * 5, 60), workers, tmpdir, RETRY_LADDER)
     return {"solve_wall_s": round(st1["solve_wall_s"] + st2["solve_wall_s"] + st3["solve_wall_s"], 2), "queries": st1["queries"] + st2["queries"] + st3["queries"],
-            "phase2_obligations": len(todo), "phase3_obligations": len(late) if 0 < len(late) <= 12 else 0}
+            "phase2_obligations": len(todo), "phase3_obligations": len(late) if 0 < len(late) <= 3 else 0}
 
 
 def _solve_phase(obligations, budget, workers, tmpdir, portfolio):
